@@ -643,3 +643,6 @@ UNITS["ShouldRoundup"] = dict(file=AN, anchor=r"static sonic_force_inline int Sh
 # Quote's tail source selection (page guard / copy to the stack buffer) as a verbatim fragment: from the buffer declaration to the
 # tail loop header (exclusive)
 UNITS["Quote.tailguard"] = dict(file=QI, anchor=r"char tmp_src\[VEC_LEN \* 2\];", kind="span", end=r"src_r = tmp_src;\n    \}", rules=[("ns-std2", r"\bstd::memcpy\(", "memcpy(")])
+
+# Quote's tail mask statement as a verbatim fragment
+UNITS["Quote.tailmask"] = dict(file=QI, anchor=r"mm = CopyAndGetEscapMask\(src_r, dst\) &", kind="span", end=r";")
